@@ -98,6 +98,10 @@ def real_calc(z, charge, radical, bonds, hmax=HMAX):
     return (-1 if h is None else h), mask
 
 
+def quick_tier(ctx):
+    return ctx.quick
+
+
 def bond_types(quick):
     return [(o, z) for z in NEIGHBOURS for o in (1, 2, 3) if not (quick and z in (1, 9, 17) and o > 1)]
 
@@ -169,6 +173,17 @@ def real_mol_line(mol, pico_check):
         except KeyError:
             calc.append('E')
     cv = ' '.join(map(str, mol.copy().check_valence()))
+    k = mol.copy()
+    chk = []
+    for n, a in k._atoms.items():
+        h = a._implicit_hydrogens
+        if h is None:
+            chk.append('-1')
+        else:
+            try:
+                chk.append(str(int(bool(k.check_implicit(n, h)))))
+            except KeyError:
+                chk.append('E')
     f = mol.copy()
     f._changed = None
     try:
@@ -187,7 +202,7 @@ def real_mol_line(mol, pico_check):
         mass = float(g)
     except TypeError:
         mass = 'E:TypeError'
-    return {'calc': ' '.join(calc), 'cv': cv, 'fixcv': fixcv, 'q': str(q), 'rad': str(rad), 'brutto': br, 'mass': mass}
+    return {'calc': ' '.join(calc), 'chk': ' '.join(chk), 'cv': cv, 'fixcv': fixcv, 'q': str(q), 'rad': str(rad), 'brutto': br, 'mass': mass}
 
 
 def parse_mol_line(line):
@@ -268,6 +283,147 @@ def molecule_stream(ctx):
     return out + extra
 
 
+
+# ------------------------------------------------------------------------------------------------
+# operations that write hydrogen counts: implicify / explicify (modelled), canonicalize / standardize / kekule / thiele
+# ------------------------------------------------------------------------------------------------
+
+def structure_key(ints):
+    """wire ints without the stereo fields: [(id, z, iso, charge, radical, implH, ((nbr, order), ...)), ...]"""
+    it = iter(ints)
+    out = []
+    for _ in range(next(it)):
+        n, z, iso, ch, rad, h, _st, deg = (next(it) for _ in range(8))
+        nb = []
+        for _ in range(deg):
+            k, o, _s = next(it), next(it), next(it)
+            nb.append((k, o))
+        out.append((n, z, iso, ch, rad, h, tuple(nb)))
+    return out
+
+
+def total_h(mol):
+    """explicit H atoms + sum of implicit marks; None when a mark is missing"""
+    t = 0
+    for _, a in mol._atoms.items():
+        if a._implicit_hydrogens is None:
+            return None
+        t += a._implicit_hydrogens + (a.atomic_number == 1)
+    return t
+
+
+def make_mixed(rng, mol, p=0.45):
+    """make a random subset of each atom's implicit hydrogens explicit through the public API (add_atom + add_bond);
+    the hydrogen marks of the touched atoms are recalculated by the library itself."""
+    m = mol.copy()
+    m._changed = None
+    m._backup = None
+    todo = []
+    for n, a in list(m._atoms.items()):
+        h = a._implicit_hydrogens
+        if h and rng.random() < p:
+            todo.append((n, rng.randint(1, h)))
+    for n, k in todo:
+        for _ in range(k):
+            x = m.add_atom('H')
+            m.add_bond(n, x, 1)
+    return m
+
+
+HOP_HANDMADE = ['[H]NC', 'C([H])C(=O)O', '[H]C([H])([H])[H]', '[2H]C([H])O', '[H][H]', '[H]O[H]', '[H]P([H])(=O)O', '[H][N+]([H])([H])C',
+                '[H]C#N', '[H]c1ccccc1', '[H]n1cccc1', '[H][S](=O)(=O)C', '[H]OP(=O)(O[H])O[H]', '[H]B([H])[H]', 'C[Si]([H])([H])[H]',
+                '[H][Al]([H])[H]', '[H][P]([H])[H] |^1:1|', '[H]N=C=O', '[H]OCl(=O)(=O)=O', '[H]C(=O)[O-]', '[H][C-]([H])[H]', '[H][O+]([H])[H]']
+
+
+def hop_molecules(ctx):
+    rng = ctx.rng
+    base = []
+    for smi in HOP_HANDMADE:
+        m = molgen.parse(smi)
+        if m is not None:
+            base.append((smi, m))
+    src = molgen.handmade() + molgen.corpus(rng, 60 if ctx.quick else 900)
+    for name, m in src:
+        base.append((name, m))
+        try:
+            k = m.copy()
+            if k.kekule():
+                base.append((name + '/kekule', k))
+        except Exception:
+            pass
+    out = list(base[:len(HOP_HANDMADE)])
+    for name, m in base:
+        for j in range(1 if ctx.quick else 2):
+            try:
+                out.append((f'{name}/mixed{j}', make_mixed(rng, m)))
+            except Exception as e:
+                ctx.dist('hops/make_mixed-raised:' + type(e).__name__)
+    return out
+
+
+def apply_real(op, mol):
+    """run an H-writing operation of the real code on a copy; returns ('ok', result) | (error class, None)"""
+    from chython.exceptions import ValenceError
+    c = mol.copy()
+    c._changed = None
+    c._backup = None
+    try:
+        getattr(c, op)()
+    except ValenceError:
+        return 'lib:ValenceError', None
+    except KeyError:
+        return 'E:KeyError', None
+    return 'ok', c
+
+
+def parse_op_line(line):
+    if not line.startswith('ok '):
+        return line.strip(), None, None
+    body, _, h = line[3:].partition(' H ')
+    return 'ok', structure_key([int(x) for x in body.split()]), int(h)
+
+
+def hop_stream(ctx):
+    mols = hop_molecules(ctx)
+    lines = [wire.mol_to_line(m) for _, m in mols]
+    after = []   # molecules produced by the real operations, fed to the `mol` stream afterwards
+    for op in ('implicify', 'explicify'):
+        resp = core.run_driver('C04', [f'{op} {l}' for l in lines])
+        for (name, m), wl, line in zip(mols, lines, resp):
+            status, res = apply_real(op + '_hydrogens', m)
+            mstatus, mkey, mh = parse_op_line(line)
+            nontriv = any(a.atomic_number == 1 for a in m._atoms.values()) if op == 'implicify' else bool(total_h(m))
+            ctx.count((op, wl), nontrivial=nontriv)
+            ctx.dist(f'hops/{op}/{status}')
+            ok = status == mstatus
+            if ok and res is not None:
+                rkey = structure_key(wire.mol_to_ints(res))
+                ok = rkey == mkey and total_h(res) == (None if mh < 0 else mh)
+                if len(res) != len(m):
+                    ctx.dist(f'hops/{op}/changed')
+                after.append((f'{name}/{op}', res))
+            if not ok:
+                ctx.cov['disagreements_checked'] += 1
+                ctx.c04_bad_mols.append({'kind': 'hop', 'op': op + '_hydrogens', 'name': name, 'wire': wire.mol_to_ints(m)})
+                if sum(1 for x in ctx.broken if x.name.startswith('hops/')) < 8:
+                    detail = f'{name}: real {status}, model {mstatus}'
+                    if res is not None and mkey is not None:
+                        diff = [(a, b) for a, b in zip(rkey, mkey) if a != b][:3]
+                        detail += f'; first differing atoms (real, model): {diff}; atoms {len(rkey)} vs {len(mkey)}'
+                    ctx.broke('correspondence', f'hops/{op}_hydrogens', detail)
+    # operations without a Lean model of their own: their *results* go through the observer stream (calc/check/cv/totals)
+    for op in ('canonicalize', 'standardize', 'kekule', 'thiele'):
+        for name, m in mols[:: (3 if ctx.quick else 1)]:
+            try:
+                status, res = apply_real(op, m)
+            except Exception as e:
+                ctx.dist(f'hops/{op}/raised:{type(e).__name__}')
+                continue
+            ctx.dist(f'hops/{op}/{status}')
+            if res is not None:
+                after.append((f'{name}/{op}', res))
+    return after
+
 # ------------------------------------------------------------------------------------------------
 # correspondence
 # ------------------------------------------------------------------------------------------------
@@ -275,7 +431,7 @@ def molecule_stream(ctx):
 def correspond(ctx):
     ctx.c04_bad_ctx = []
     ctx.c04_bad_mols = []
-    ctx.cov['programs'] = 9  # _compiled_valence_rules, calc_implicit, check_implicit, check_valence, fix_structure, brutto, molecular_charge, is_radical, molecular_mass
+    ctx.cov['programs'] = 12  # implicify_hydrogens, explicify_hydrogens, check_implicit on stored marks after canonicalize/standardize/kekule/thiele, _compiled_valence_rules, calc_implicit, check_implicit, check_valence, fix_structure, brutto, molecular_charge, is_radical, molecular_mass
     if not ctx.build_ok:
         ctx.notes.append('Lean build failed: driver streams skipped')
         return
@@ -301,9 +457,10 @@ def correspond(ctx):
     ctx.sample({'stream': 'rules', 'request': 'rules 8', 'response': resp[zs.index(8)][:160] + ' ...'})
 
     # -- stream 2: exhaustive grid ---------------------------------------------------------------
-    quick = False  # the full domain fits the quick budget (~30 s on 12 workers)
-    ms = multisets(bond_types(quick))
-    tasks = [(z, c, r, quick) for z in ORGANIC for c in CHARGES for r in (0, 1)]
+    reduced = False  # the full domain fits the quick budget (~30 s on 12 workers)
+    quick = ctx.quick
+    ms = multisets(bond_types(reduced))
+    tasks = [(z, c, r, reduced) for z in ORGANIC for c in CHARGES for r in (0, 1)]
     reqs = []
     body = ' '.join(f'{len(b)} ' + ' '.join(f'{o} {nz}' for o, nz in b) if b else '0' for b in ms)
     for z, c, r, _ in tasks:
@@ -333,7 +490,7 @@ def correspond(ctx):
         ctx.dist(f'grid/valid/Z={z}', sum(1 for x in rres if not x.startswith('-1')))
         ctx.dist(f'grid/none/Z={z}', sum(1 for x in rres if x.startswith('-1')))
     ctx.sample({'stream': 'grid', 'context': {'z': 7, 'charge': 1, 'radical': 0, 'bonds': ms[200]},
-                'real h:checkmask': real[(7, 1, 0)][200], 'model': model[tasks.index((7, 1, 0, quick))].split()[200]})
+                'real h:checkmask': real[(7, 1, 0)][200], 'model': model[tasks.index((7, 1, 0, reduced))].split()[200]})
     ctx.exhaustive = not any(b.name.startswith('grid/') and 'driver answered' in b.detail for b in ctx.broken)
 
     # -- stream 3: random contexts: any element, aromatic / special bonds, charges -4..4 -----------
@@ -363,8 +520,57 @@ def correspond(ctx):
             if sum(1 for x in ctx.broken if x.name.startswith('random/')) < 8:
                 ctx.broke('correspondence', f'random/calc_implicit+check_implicit/Z={z}', f'q={c} rad={r} bonds={b} real={h}:{mask} model={line}')
 
+    # -- stream 3b: rule-driven contexts: every exception of every element fires (exact environment, with 0..h of the
+    #    hydrogens explicit, one neighbour more, one less, one neighbour exchanged); thorough: all elements x small grid
+    cases = []
+    for z in zs:
+        for c, r, v, env, h in spec_rules(z):
+            base = tuple(sorted(env.elements()))
+            rest = v - sum(o for o, _ in base)  # explicit hydrogens that still fit
+            for k in range(0, max(rest, 0) + 1):
+                cases.append((z, c, int(r), base + ((1, 1),) * k))
+            cases.append((z, c, int(r), base + ((1, 6),)))
+            cases.append((z, c, int(r), base + ((2, 8),)))
+            if base:
+                i = rng.randrange(len(base))
+                cases.append((z, c, int(r), base[:i] + base[i + 1:]))
+                cases.append((z, c, int(r), base[:i] + ((base[i][0], rng.choice(NEIGHBOURS)),) + base[i + 1:]))
+    if not quick_tier(ctx):
+        small = multisets([(1, 1), (1, 6), (2, 6), (1, 8), (2, 8), (1, 7), (1, 17), (1, 9)])
+        small = [b for b in small if len(b) <= 3]
+        for z in zs:
+            for c in range(-4, 5):
+                for r in (0, 1):
+                    cases += [(z, c, r, b) for b in small]
+    cases = sorted(set(cases))
+    by = {}
+    for z, c, r, b in cases:
+        by.setdefault((z, c, r), []).append(b)
+    keys = sorted(by)
+    reqs = [f'calcs {z} {c} {r} {HMAX} {len(by[(z, c, r)])} ' +
+            ' '.join(f'{len(b)} ' + ' '.join(f'{o} {nz}' for o, nz in b) if b else '0' for b in by[(z, c, r)])
+            for z, c, r in keys]
+    resp = core.run_driver('C04', reqs)
+    fired = 0
+    for (z, c, r), line in zip(keys, resp):
+        mres = line.split()
+        for b, a in zip(by[(z, c, r)], mres):
+            h, mask = real_calc(z, c, r, b)
+            ctx.count(('rule-ctx', z, c, r, b), nontrivial=bool(b))
+            fired += h >= 0
+            if a != f'{h}:{mask}':
+                ctx.cov['disagreements_checked'] += 1
+                ctx.c04_bad_ctx.append({'kind': 'ctx', 'z': z, 'charge': c, 'radical': r, 'bonds': [list(x) for x in b]})
+                if sum(1 for x in ctx.broken if x.name.startswith('rule-driven/')) < 8:
+                    ctx.broke('correspondence', f'rule-driven/calc_implicit+check_implicit/Z={z}', f'q={c} rad={r} bonds={b} real={h}:{mask} model={a}')
+        if len(mres) != len(by[(z, c, r)]):
+            ctx.broke('correspondence', f'rule-driven/Z={z}', f'driver answered {line[:200]}')
+    ctx.dist('rule-driven/contexts', len(cases))
+    ctx.dist('rule-driven/with-valence-state', fired)
+
     # -- stream 4: molecules ---------------------------------------------------------------------
     mols = molecule_stream(ctx)
+    mols += hop_stream(ctx)   # stream 5: implicify/explicify vs model; results of all H-writing operations observed below
     lines = [wire.mol_to_line(m) for _, m in mols]
     resp = core.run_driver('C04', ['mol ' + l for l in lines])
     # malformed: atom that does not exist
@@ -378,7 +584,7 @@ def correspond(ctx):
             ctx.dist('mol/with-valence-error')
         if isinstance(real['brutto'], str):
             ctx.dist('mol/brutto-TypeError')
-        bad = [k for k in ('calc', 'cv', 'fixcv', 'q', 'rad') if real[k] != model.get(k)]
+        bad = [k for k in ('calc', 'chk', 'cv', 'fixcv', 'q', 'rad') if real[k] != model.get(k)]
         if not brutto_agrees(real['brutto'], model.get('brutto')):
             bad.append('brutto')
         if not mass_agrees(real['mass'], model.get('mass', '')):
@@ -541,6 +747,36 @@ def mol_oracle(mol):
     return out
 
 
+
+def hop_oracle(mol, op):
+    """an operation that writes hydrogen counts must leave every localised atom with a count its element tables accept,
+    and implicify/explicify/kekule/thiele must not change the number of hydrogens of the molecule."""
+    out = []
+    before = total_h(mol)
+    status, res = apply_real(op, mol)
+    if res is None:
+        return out
+    if op in ('implicify_hydrogens', 'explicify_hydrogens', 'kekule', 'thiele') and before is not None:
+        aft = total_h(res)
+        if aft != before:
+            out.append((f'C04/{op}/hydrogens-not-conserved', f'{op}: {before} hydrogens before, {aft} after; brutto {mol.copy().brutto} -> '
+                        f'{res.brutto if aft is not None else "unknown"}'))
+    if op in ('implicify_hydrogens', 'explicify_hydrogens', 'canonicalize'):
+        for n, a in res._atoms.items():
+            bonds = [(b.order, res._atoms[k].atomic_number) for k, b in res._bonds[n].items()]
+            if any(o == 4 for o, _ in bonds) or a.atomic_number == 1:
+                continue
+            _, allowed = spec_h(a.atomic_number, a.charge, a.is_radical, bonds)
+            h = a.implicit_hydrogens
+            was = mol._atoms.get(n)
+            if h is not None and h not in allowed and (was is None or was.implicit_hydrogens is not None):
+                out.append((f'C04/{op}/count-not-in-tables/Z={a.atomic_number}',
+                            f'after {op} atom {n} ({a.atomic_symbol}, q={a.charge}) has implicit_hydrogens={h} with bonds {bonds}; '
+                            f'the element tables allow {sorted(allowed)}; check_valence()={res.check_valence()}'))
+                break
+    return out
+
+
 def _exact_atomic_mass(a):
     d = lambda x: Fraction(repr(x))
     mass = a.isotopes_masses
@@ -610,6 +846,9 @@ def search(ctx):
     for c in getattr(ctx, 'c04_bad_mols', [])[:50]:
         try:
             m, _ = wire.ints_to_mol(c['wire'], calc=True)
+            if c['kind'] == 'hop':
+                report(hop_oracle(m, c['op']), c)
+                continue
             report(mol_oracle(m), c)
         except Exception as e:
             ctx.notes.append(f'search: molecule oracle raised {type(e).__name__}')
@@ -631,6 +870,18 @@ def search(ctx):
                 b = ((4, 6),) * k4 + tuple(extra)
                 for c in (0, 1):
                     report(ctx_oracle(z, c, 0, b), {'kind': 'ctx', 'z': z, 'charge': c, 'radical': 0, 'bonds': [list(x) for x in b]})
+    # operations that write hydrogen counts, on molecules with mixed explicit + implicit hydrogens
+    try:
+        for name, m in hop_molecules(ctx):
+            if time.time() - t0 > budget * 0.8:
+                break
+            for op in ('implicify_hydrogens', 'explicify_hydrogens', 'canonicalize', 'kekule', 'thiele'):
+                try:
+                    report(hop_oracle(m, op), {'kind': 'hop', 'op': op, 'name': name, 'wire': wire.mol_to_ints(m)})
+                except Exception as e:
+                    ctx.dist(f'search/hop-raised:{op}:{type(e).__name__}')
+    except Exception as e:
+        ctx.notes.append(f'search: hop sweep raised {type(e).__name__}: {e}'[:200])
     # molecules: corpus against the tables and against RDKit's formula
     smis = molgen.corpus_smiles()
     idx = list(range(len(smis)))
@@ -660,6 +911,9 @@ def probe(inp):
     elif kind == 'mol':
         m, _ = wire.ints_to_mol(inp['wire'], calc=True)
         res = mol_oracle(m)
+    elif kind == 'hop':
+        m, _ = wire.ints_to_mol(inp['wire'], calc=True)
+        res = hop_oracle(m, inp['op'])
     elif kind == 'smiles':
         res = rdkit_formula_oracle(inp['smiles'])
     else:
